@@ -1,1 +1,548 @@
-fn main() {}
+//! C14 — retries are bounded, ordered and respect back-off limits.
+//!
+//! Every case is a retry policy (built from the public fields, or through
+//! `RetryPolicy::from_env`) plus a scripted sequence of outcomes.  The policy's
+//! `execute` runs on a current-thread tokio runtime whose clock is paused, the
+//! closure logs the virtual time of each attempt and answers from the script,
+//! so every delay is measured exactly and no wall-clock time is involved.
+
+use cascette_protocol::error::ProtocolError;
+use cascette_protocol::retry::RetryPolicy;
+use proptest::prelude::*;
+use reqwest::StatusCode;
+use serde::{Deserialize, Serialize};
+use std::cell::RefCell;
+use std::sync::Mutex;
+use std::time::Duration;
+use vh_engine::{Check, Known, Section, Verdict};
+
+// ---------------------------------------------------------------------------
+// case
+
+/// One scripted outcome of the operation.
+#[derive(Debug, Clone, Copy, PartialEq, Eq, Serialize, Deserialize)]
+enum Out {
+    /// the operation succeeds
+    Ok,
+    /// a retryable error that carries no Retry-After hint (u8 picks the variant)
+    Retryable(u8),
+    /// `RateLimited { retry_after: Some(ms) }`
+    Hinted(u64),
+    /// `RateLimited { retry_after: None }`
+    Limited,
+    /// a non-retryable error (u8 picks the variant)
+    Fatal(u8),
+}
+
+#[derive(Debug, Clone, Serialize, Deserialize)]
+struct Case {
+    max_attempts: u32,
+    initial_backoff: Duration,
+    max_backoff: Duration,
+    /// text form, parsed with `str::parse::<f64>` exactly as `from_env` does
+    /// (JSON has no NaN)
+    multiplier: String,
+    jitter: bool,
+    /// outcome of call 1, 2, …; calls beyond the script get `Retryable(0)`
+    script: Vec<Out>,
+}
+
+const INITIALS: [Duration; 4] = [Duration::ZERO, Duration::from_millis(1), Duration::from_millis(100), Duration::from_secs(10)];
+const MAXES: [Duration; 6] = [
+    Duration::ZERO,
+    Duration::from_millis(1),
+    Duration::from_secs(1),
+    Duration::from_secs(10),
+    Duration::from_secs(3600),
+    Duration::from_secs(u64::MAX),
+];
+const MULTS: [&str; 8] = ["0", "0.5", "1", "2", "10", "1e30", "NaN", "-1"];
+/// the five ways an attempt can fail and be retried
+const NONTERMINAL: [Out; 5] = [Out::Retryable(0), Out::Hinted(0), Out::Hinted(1_000), Out::Hinted(3_600_000), Out::Limited];
+const N_RETRYABLE: u8 = 6;
+const N_FATAL: u8 = 7;
+
+/// Build the concrete error for outcome `o` of call `i` (tagged with `i` where the variant has a payload).
+fn mk_err(o: Out, i: usize) -> ProtocolError {
+    match o {
+        Out::Ok => unreachable!(),
+        Out::Retryable(v) => match v % N_RETRYABLE {
+            0 => ProtocolError::Timeout,
+            1 => ProtocolError::ServiceUnavailable,
+            2 => ProtocolError::Network(std::io::Error::new(std::io::ErrorKind::ConnectionReset, format!("call {i}"))),
+            3 => ProtocolError::ServerError(StatusCode::from_u16(500 + (i as u16 % 5)).unwrap()),
+            4 => ProtocolError::HttpStatus(StatusCode::BAD_GATEWAY),
+            _ => ProtocolError::HttpStatus(StatusCode::TOO_MANY_REQUESTS),
+        },
+        Out::Hinted(ms) => ProtocolError::RateLimited { retry_after: Some(Duration::from_millis(ms)) },
+        Out::Limited => ProtocolError::RateLimited { retry_after: None },
+        Out::Fatal(v) => match v % N_FATAL {
+            0 => ProtocolError::Parse(format!("call {i}")),
+            1 => ProtocolError::Other(format!("call {i}")),
+            2 => ProtocolError::HttpStatus(StatusCode::NOT_FOUND),
+            3 => ProtocolError::InvalidKey,
+            4 => ProtocolError::InvalidEndpoint(format!("call {i}")),
+            5 => ProtocolError::AllHostsFailed,
+            _ => ProtocolError::RangeNotSupported,
+        },
+    }
+}
+
+fn retryable(o: Out) -> bool {
+    matches!(o, Out::Retryable(_) | Out::Hinted(_) | Out::Limited)
+}
+
+// ---------------------------------------------------------------------------
+// policy construction
+
+const ENV_VARS: [&str; 5] =
+    ["CASCETTE_MAX_RETRIES", "CASCETTE_RETRY_BACKOFF", "CASCETTE_MAX_BACKOFF", "CASCETTE_BACKOFF_MULTIPLIER", "CASCETTE_RETRY_JITTER"];
+static ENV_LOCK: Mutex<()> = Mutex::new(());
+
+/// Environment text for the case, if it is expressible (whole ms / whole s).
+fn env_text(c: &Case) -> Option<[String; 5]> {
+    if c.initial_backoff.subsec_nanos() % 1_000_000 != 0 || c.max_backoff.subsec_nanos() != 0 {
+        return None;
+    }
+    let ms = u64::try_from(c.initial_backoff.as_millis()).ok()?;
+    Some([
+        c.max_attempts.to_string(),
+        ms.to_string(),
+        c.max_backoff.as_secs().to_string(),
+        c.multiplier.clone(),
+        c.jitter.to_string(),
+    ])
+}
+
+/// `RetryPolicy::from_env` under the five documented variables; the previous
+/// environment is restored.  Only called from the single-threaded section.
+fn policy_from_env(vals: &[String; 5]) -> Result<Option<RetryPolicy>, String> {
+    let _g = ENV_LOCK.lock().unwrap_or_else(|e| e.into_inner());
+    let saved: Vec<Option<std::ffi::OsString>> = ENV_VARS.iter().map(std::env::var_os).collect();
+    for (k, v) in ENV_VARS.iter().zip(vals) {
+        // SAFETY: the section runs with shards(1); no other thread of this process reads or writes the environment meanwhile.
+        unsafe { std::env::set_var(k, v) };
+    }
+    let r = vh_engine::util::catch_panic(RetryPolicy::from_env);
+    for (k, v) in ENV_VARS.iter().zip(saved) {
+        // SAFETY: as above
+        unsafe {
+            match v {
+                Some(v) => std::env::set_var(k, v),
+                None => std::env::remove_var(k),
+            }
+        }
+    }
+    match r {
+        Ok(Ok(p)) => Ok(Some(p)),
+        // a configuration that is refused cannot make a call misbehave
+        Ok(Err(_)) => Ok(None),
+        Err(p) => Err(format!("from_env panicked at {}:{}: {}", p.file, p.line, p.msg)),
+    }
+}
+
+// ---------------------------------------------------------------------------
+// execution + oracle
+
+const K_MORE: &str = "C14:execute:more-attempts-than-max-retries-plus-one";
+const K_AFTER_OK: &str = "C14:execute:continued-after-success";
+const K_AFTER_FATAL: &str = "C14:execute:continued-after-non-retryable-error";
+const K_RESULT: &str = "C14:execute:result-is-not-the-last-outcome";
+const K_EARLY: &str = "C14:execute:gave-up-on-retryable-error-before-retries-exhausted";
+const K_HINT_SHORT: &str = "C14:hint:wait-shorter-than-retry-after";
+const K_HINT_LONG: &str = "C14:hint:wait-longer-than-retry-after-plus-jitter";
+const K_FIRST: &str = "C14:backoff:first-delay-exceeds-max-backoff:initial>max";
+const K_EXCEEDS: &str = "C14:backoff:delay-exceeds-max-backoff";
+const K_EXACT: &str = "C14:backoff:delay-differs-from-min(initial*m^k,max):jitter-off";
+const K_TOTAL: &str = "C14:execute:total-wait-exceeds-sum-of-bounds";
+const K_PANIC_NEG: &str = "C14:execute:panic:backoff-update:negative-float-seconds-to-duration";
+const K_PANIC_BIG: &str = "C14:execute:panic:backoff-update:float-seconds-too-big-for-duration";
+const K_PANIC_ADD: &str = "C14:execute:panic:jitter:duration-add-overflow";
+const K_ENV: &str = "C14:from_env:panic";
+
+/// timer granularity of tokio (deadlines are rounded up to the next ms)
+const TICK: f64 = 1e-3;
+const EPS: f64 = 1e-6;
+/// tokio clamps sleeps it cannot represent to "30 years from now"; above this only a lower bound is checked
+const HORIZON: f64 = 1e8;
+
+fn run_case(c: &Case, known: &Known, via_env: bool) -> Verdict {
+    let Ok(mult) = c.multiplier.parse::<f64>() else {
+        return Verdict::pass(); // never generated
+    };
+    let policy = if via_env {
+        let Some(vals) = env_text(c) else { return Verdict::pass() };
+        match policy_from_env(&vals) {
+            Ok(Some(p)) => p,
+            Ok(None) => return Verdict::pass().class("from_env-refused-the-values"),
+            Err(e) => return Verdict::fail(K_ENV, format!("{vals:?}: {e}")),
+        }
+    } else {
+        RetryPolicy {
+            max_attempts: c.max_attempts,
+            initial_backoff: c.initial_backoff,
+            max_backoff: c.max_backoff,
+            multiplier: mult,
+            jitter: c.jitter,
+        }
+    };
+    // the configuration the oracle holds the call to is what the policy object says
+    let a = policy.max_attempts as usize;
+    let initial_s = policy.initial_backoff.as_secs_f64();
+    let max_s = policy.max_backoff.as_secs_f64();
+    let m = policy.multiplier;
+    let jit = if policy.jitter { 1.3 } else { 1.0 };
+    let env_differs = via_env
+        && (policy.max_attempts != c.max_attempts
+            || policy.initial_backoff != c.initial_backoff
+            || policy.max_backoff != c.max_backoff
+            || policy.jitter != c.jitter
+            || !(m == mult || (m.is_nan() && mult.is_nan())));
+
+    // a runaway loop is cut by a non-retryable error (and then reported by the attempt bound)
+    let cap = a + 4;
+    let outcome_of = |i: usize| -> Out {
+        if i > cap {
+            Out::Fatal(1)
+        } else if i <= c.script.len() {
+            c.script[i - 1]
+        } else {
+            Out::Retryable(0)
+        }
+    };
+
+    let log: RefCell<Vec<tokio::time::Instant>> = RefCell::new(Vec::new());
+    // "no constructible policy makes the call panic": a panic is a failure whose key names its origin
+    let ran = vh_engine::util::catch_panic(|| {
+        let rt = tokio::runtime::Builder::new_current_thread().enable_time().start_paused(true).build().expect("runtime");
+        rt.block_on(async {
+            let r = policy
+                .execute(|| {
+                    let i = {
+                        let mut l = log.borrow_mut();
+                        l.push(tokio::time::Instant::now());
+                        l.len()
+                    };
+                    std::future::ready(match outcome_of(i) {
+                        Out::Ok => Ok(i),
+                        o => Err(mk_err(o, i)),
+                    })
+                })
+                .await;
+            (r, tokio::time::Instant::now())
+        })
+    });
+    let (res, end) = match ran {
+        Ok(x) => x,
+        Err(p) => {
+            let n = log.borrow().len();
+            let outs: Vec<Out> = (1..=n).map(outcome_of).collect();
+            let key = if p.msg.contains("cannot convert float seconds to Duration: value is negative") {
+                K_PANIC_NEG.to_string()
+            } else if p.msg.contains("cannot convert float seconds to Duration: value is either too big or NaN") {
+                K_PANIC_BIG.to_string()
+            } else if p.msg.contains("overflow when adding durations") {
+                K_PANIC_ADD.to_string()
+            } else {
+                let file = p.file.rsplit("/library/").next().unwrap_or(&p.file).to_string();
+                format!("C14:execute:panic:{}:{}", file, p.norm_msg())
+            };
+            return Verdict::fail(key, format!("panic after {n} attempt(s) at {}:{}: {}; policy={policy:?} outcomes={outs:?}", p.file, p.line, p.msg));
+        }
+    };
+    let times = log.into_inner();
+    let n = times.len();
+    let outs: Vec<Out> = (1..=n).map(outcome_of).collect();
+    let ctx = || format!("policy={policy:?} outcomes={outs:?}");
+
+    if n == 0 {
+        return Verdict::fail(K_RESULT, format!("execute returned without attempting the operation; {}", ctx()));
+    }
+    // 1. bounded
+    if n > a + 1 {
+        return Verdict::fail(K_MORE, format!("{n} attempts with max_attempts={a}; {}", ctx()));
+    }
+    // 2. ordered: only a retryable failure may be followed by another attempt
+    for (i, o) in outs[..n - 1].iter().enumerate() {
+        match o {
+            Out::Ok => return Verdict::fail(K_AFTER_OK, format!("attempt {} succeeded but {} attempts were made; {}", i + 1, n, ctx())),
+            Out::Fatal(_) => {
+                return Verdict::fail(K_AFTER_FATAL, format!("attempt {} failed with a non-retryable error but {} attempts were made; {}", i + 1, n, ctx()));
+            }
+            _ => {}
+        }
+    }
+    // 3. the result is exactly the outcome of the last attempt
+    let last = outs[n - 1];
+    let want = match last {
+        Out::Ok => format!("Ok({n})"),
+        o => format!("Err({:?})", mk_err(o, n)),
+    };
+    let got = match &res {
+        Ok(v) => format!("Ok({v})"),
+        Err(e) => format!("Err({e:?})"),
+    };
+    if got != want {
+        return Verdict::fail(K_RESULT, format!("returned {got}, last attempt produced {want}; {}", ctx()));
+    }
+    // 4. retries are used up before a retryable error is handed back
+    if retryable(last) && n < a + 1 {
+        return Verdict::fail(K_EARLY, format!("{n} attempts, max_attempts={a}, returned {got}; {}", ctx()));
+    }
+
+    // 5. delays
+    let mut v = Verdict::pass();
+    let gaps: Vec<f64> = times.windows(2).map(|w| (w[1] - w[0]).as_secs_f64()).collect();
+    let any_hint = outs.iter().any(|o| matches!(o, Out::Hinted(_)));
+    let exact = !policy.jitter && m.is_finite() && m >= 1.0 && !any_hint;
+    let mut sum_hi = 0.0f64;
+    let mut cur = initial_s; // initial * m^k
+    let (mut hinted_gap, mut hint_over_max, mut clamped, mut exact_checked) = (false, false, false, false);
+    for (k, &gap) in gaps.iter().enumerate() {
+        match outs[k] {
+            Out::Hinted(ms) => {
+                let h = ms as f64 / 1000.0;
+                hinted_gap = true;
+                hint_over_max |= h > max_s;
+                if gap < h - EPS {
+                    return Verdict::fail(K_HINT_SHORT, format!("waited {gap}s after a Retry-After of {h}s (attempt {}); {}", k + 1, ctx()));
+                }
+                let hi = jit * h + TICK + EPS;
+                if gap > hi {
+                    return Verdict::fail(K_HINT_LONG, format!("waited {gap}s after a Retry-After of {h}s (attempt {}, jitter={}); {}", k + 1, policy.jitter, ctx()));
+                }
+                sum_hi += hi;
+            }
+            _ => {
+                let hi = jit * max_s + TICK + EPS;
+                let mut tolerated = false;
+                if gap > hi {
+                    let msg = format!("waited {gap}s after attempt {} with max_backoff={max_s}s initial_backoff={initial_s}s jitter={}; {}", k + 1, policy.jitter, ctx());
+                    if k == 0 && policy.initial_backoff > policy.max_backoff {
+                        if known.is_open(K_FIRST) {
+                            v.known_hits.push(K_FIRST.to_string());
+                            tolerated = true;
+                        } else {
+                            return Verdict::fail(K_FIRST, msg);
+                        }
+                    } else {
+                        return Verdict::fail(K_EXCEEDS, msg);
+                    }
+                }
+                sum_hi += if tolerated { gap + TICK } else { hi };
+                if exact && !tolerated {
+                    let e = cur.min(max_s);
+                    clamped |= cur >= max_s && k > 0;
+                    exact_checked = true;
+                    let bad = if e <= HORIZON { gap < e - EPS - 1e-9 * e || gap > e + TICK + EPS + 1e-9 * e } else { gap < HORIZON };
+                    if bad {
+                        return Verdict::fail(
+                            K_EXACT,
+                            format!("delay {k} was {gap}s, min(initial*m^{k}, max) = {e}s (initial={initial_s}s m={m} max={max_s}s); {}", ctx()),
+                        );
+                    }
+                }
+            }
+        }
+        cur *= m;
+    }
+    // 6. no waiting outside the delays above ("wait for ever")
+    let total = (end - times[0]).as_secs_f64();
+    if total > sum_hi + TICK {
+        return Verdict::fail(K_TOTAL, format!("call took {total}s of virtual time, the delays are bounded by {sum_hi}s; {}", ctx()));
+    }
+
+    v.nontrivial(n >= 2)
+        .class_if(n >= 2, "retried")
+        .class_if(n == a + 1 && retryable(last), "retries-exhausted")
+        .class_if(n >= 2 && last == Out::Ok, "ok-after-retry")
+        .class_if(n >= 2 && matches!(last, Out::Fatal(_)), "fatal-after-retry")
+        .class_if(hinted_gap, "hinted-gap")
+        .class_if(hint_over_max, "hint>max_backoff")
+        .class_if(exact_checked, "exact-progression-checked")
+        .class_if(clamped, "exact-progression-clamped")
+        .class_if(policy.initial_backoff > policy.max_backoff, "initial>max")
+        .class_if(m.is_nan(), "multiplier-nan")
+        .class_if(m < 0.0, "multiplier-negative")
+        .class_if(m >= 0.0 && m < 1.0, "multiplier<1")
+        .class_if(policy.max_backoff == Duration::from_secs(u64::MAX), "max=u64::MAX s")
+        .class_if(policy.jitter && n >= 2, "jitter-on")
+        .class_if(a >= 4, "max_attempts>=4")
+        .class_if(via_env, "via-from_env")
+        .class_if(env_differs, "from_env-fields-differ-from-text")
+}
+
+// ---------------------------------------------------------------------------
+// generators
+
+/// Canonical scripts for `a` retries: every sequence of ≤ a+1 retryable
+/// failures followed by a success or by a non-retryable error, and every
+/// sequence of a+2 retryable failures.  (What follows the first success /
+/// non-retryable error is never observed, so these are all sequences of
+/// length ≤ a+2 up to their observable prefix.)
+fn scripts(a: u32, salt: usize) -> Vec<Vec<Out>> {
+    let mut out = Vec::new();
+    let mut level: Vec<Vec<Out>> = vec![Vec::new()];
+    for len in 0..=(a as usize + 2) {
+        if len <= a as usize + 1 {
+            for (j, p) in level.iter().enumerate() {
+                let mut s = p.clone();
+                s.push(Out::Ok);
+                out.push(s);
+                let mut s = p.clone();
+                s.push(Out::Fatal(((salt + j + len) % N_FATAL as usize) as u8));
+                out.push(s);
+            }
+        } else {
+            out.extend(level.iter().cloned());
+            break;
+        }
+        let mut next = Vec::with_capacity(level.len() * NONTERMINAL.len());
+        for (j, p) in level.iter().enumerate() {
+            for sym in NONTERMINAL {
+                let mut s = p.clone();
+                s.push(match sym {
+                    Out::Retryable(_) => Out::Retryable(((salt + j + len) % N_RETRYABLE as usize) as u8),
+                    o => o,
+                });
+                next.push(s);
+            }
+        }
+        level = next;
+    }
+    out
+}
+
+fn grid_policies(max_a: u32) -> impl Iterator<Item = (u32, Duration, Duration, &'static str, bool)> + Send {
+    (0..=max_a).flat_map(|a| {
+        INITIALS.into_iter().flat_map(move |i| {
+            MAXES.into_iter().flat_map(move |mx| MULTS.into_iter().flat_map(move |mu| [false, true].into_iter().map(move |j| (a, i, mx, mu, j))))
+        })
+    })
+}
+
+fn sym_strategy() -> impl Strategy<Value = Out> {
+    prop_oneof![
+        5 => (0..N_RETRYABLE).prop_map(Out::Retryable),
+        1 => Just(Out::Hinted(0)),
+        1 => Just(Out::Hinted(1_000)),
+        1 => Just(Out::Hinted(3_600_000)),
+        2 => Just(Out::Limited),
+        1 => Just(Out::Ok),
+        1 => (0..N_FATAL).prop_map(Out::Fatal),
+    ]
+}
+
+fn sampled_strategy() -> BoxedStrategy<Case> {
+    // grid values first (shrinking moves towards them), then a few off-grid ones
+    let initials: Vec<Duration> = INITIALS.into_iter().chain([Duration::from_millis(7), Duration::from_secs(3600)]).collect();
+    let maxes: Vec<Duration> = MAXES.into_iter().chain([Duration::from_millis(50), Duration::from_secs(86_400 * 365)]).collect();
+    let mults: Vec<&'static str> = MULTS.into_iter().chain(["1.5", "3", "inf", "-inf", "-0", "1e-30", "1.7976931348623157e308"]).collect();
+    (
+        prop_oneof![1 => 0u32..=3, 5 => 4u32..=5],
+        proptest::sample::select(initials),
+        proptest::sample::select(maxes),
+        proptest::sample::select(mults),
+        any::<bool>(),
+        proptest::collection::vec(sym_strategy(), 0..=7),
+    )
+        .prop_map(|(a, i, mx, mu, j, mut script)| {
+            script.truncate(a as usize + 2);
+            Case { max_attempts: a, initial_backoff: i, max_backoff: mx, multiplier: mu.to_string(), jitter: j, script }
+        })
+        .boxed()
+}
+
+fn main() {
+    let mut ck = Check::from_args("C14", "fault_enumeration");
+    let tier = ck.tier;
+    ck.extra(
+        "rule",
+        "policy grid (max_attempts x initial_backoff x max_backoff x multiplier x jitter, incl. initial > max, zero, NaN, negative, huge) x scripted outcome \
+         sequences over {Ok, retryable, RateLimited with hint 0/1 s/1 h, RateLimited without hint, non-retryable}; RetryPolicy::execute on a paused tokio clock, \
+         attempt times logged by the closure; non-trivial = at least 2 attempts were made; distinct by case hash"
+            .into(),
+    );
+    ck.assume("tokio's paused clock: a sleep completes at its deadline rounded up to the next millisecond and never earlier (1 ms tolerance on upper bounds)");
+    ck.assume("jitter comes from the library's own thread RNG: jittered delays are checked against bounds only, never against exact values");
+    ck.assume(
+        "CdnClient::download_with_retry runs RetryPolicy::default() (a grid point) through the same execute loop; its HTTP status mapping \
+         (5xx -> ServerError, 429 -> RateLimited{Retry-After}, other -> HttpStatus) is represented by the scripted error variants, no HTTP traffic is generated",
+    );
+    ck.assume("retryable / non-retryable variants are the ones listed in ProtocolError::should_retry (reqwest::Error values cannot be constructed offline)");
+
+    // 1. exhaustive part of the grid
+    let max_a = tier.pick(3u32, 4u32);
+    let known = ck.known().clone();
+    ck.run(
+        Section::enumerate(
+            "grid-exhaustive",
+            format!(
+                "max_attempts 0..={max_a} x initial {{0,1ms,100ms,10s}} x max {{0,1ms,1s,10s,1h,u64::MAX s}} x multiplier {{0,0.5,1,2,10,1e30,NaN,-1}} x jitter on/off x \
+                 every outcome sequence of length <= max_attempts+2 (up to the unobservable tail after the first success / non-retryable error)"
+            ),
+            move || {
+                Box::new(grid_policies(max_a).enumerate().flat_map(|(pi, (a, i, mx, mu, j))| {
+                    scripts(a, pi).into_iter().map(move |script| Case {
+                        max_attempts: a,
+                        initial_backoff: i,
+                        max_backoff: mx,
+                        multiplier: mu.to_string(),
+                        jitter: j,
+                        script,
+                    })
+                }))
+            },
+            move |c: &Case| run_case(c, &known, false),
+        )
+        .shards(16)
+        .panic_prefix_("execute"),
+    );
+
+    // 2. the rest of the grid (max_attempts 4..5, longer scripts, a few off-grid values), sampled
+    let known = ck.known().clone();
+    ck.run(
+        Section::pbt("grid-sampled", tier.pick(60_000, 4_000_000), sampled_strategy, move |c: &Case| run_case(c, &known, false))
+            .shards(16)
+            .panic_prefix_("execute"),
+    );
+
+    // 3. the same values as environment text through RetryPolicy::from_env (process-global: one thread)
+    let known = ck.known().clone();
+    ck.run(
+        Section::enumerate(
+            "from-env",
+            "CASCETTE_MAX_RETRIES 0..=5 x CASCETTE_RETRY_BACKOFF {0,1,100,10000} x CASCETTE_MAX_BACKOFF {0,1,10,3600,u64::MAX} x CASCETTE_BACKOFF_MULTIPLIER \
+             {0,0.5,1,2,10,1e30,NaN,-1} x CASCETTE_RETRY_JITTER {false,true} x 4 outcome sequences (all retryable; hint/no-hint/retryable then Ok; \
+             two retryable then non-retryable; immediate Ok)",
+            move || {
+                Box::new(grid_policies(5).filter(|p| p.2.subsec_nanos() == 0).flat_map(|(a, i, mx, mu, j)| {
+                    [
+                        vec![],
+                        vec![Out::Hinted(1_000), Out::Limited, Out::Retryable(3), Out::Ok],
+                        vec![Out::Retryable(2), Out::Retryable(5), Out::Fatal(2)],
+                        vec![Out::Ok],
+                    ]
+                    .into_iter()
+                    .map(move |script| Case { max_attempts: a, initial_backoff: i, max_backoff: mx, multiplier: mu.to_string(), jitter: j, script })
+                }))
+            },
+            move |c: &Case| run_case(c, &known, true),
+        )
+        .shards(1)
+        .panic_prefix_("execute"),
+    );
+
+    ck.finish();
+}
+
+trait PanicPrefix {
+    fn panic_prefix_(self, p: &str) -> Self;
+}
+impl<C> PanicPrefix for Section<C> {
+    /// the same panic found through any section is the same finding
+    fn panic_prefix_(mut self, p: &str) -> Self {
+        self.panic_prefix = Some(p.to_string());
+        self
+    }
+}
